@@ -56,6 +56,10 @@ def selftest(prop, jobs=8):
     with cf.ThreadPoolExecutor(max_workers=jobs) as ex:
         for kind, name, res in ex.map(work, [('breaking', p) for p in br] + [('benign', p) for p in bn]):
             out[kind][name] = res.get(prop, res)
+    # the per-worker cargo target directories are a cache for this run only (several GB each): drop them
+    import glob
+    for d_ in glob.glob(os.path.join(V, '.work', 'target-w*')):
+        shutil.rmtree(d_, ignore_errors=True)
     killed = sum(1 for v in out['breaking'].values() if v.get('exit') == 1)
     silent = sum(1 for v in out['benign'].values() if v.get('exit') == 0)
     return {'mutants_applied': len(br), 'mutants_killed': killed, 'missed': sorted(k for k, v in out['breaking'].items() if v.get('exit') != 1),
